@@ -80,6 +80,8 @@ var xUnits = []xUnit{
 	{Name: "tr_WriteUint16", Dir: "tars/protocol/codec", Func: "Buffer.WriteUint16", Writer: codecWriter},
 	{Name: "tr_WriteUint32", Dir: "tars/protocol/codec", Func: "Buffer.WriteUint32", Writer: codecWriter},
 	{Name: "tr_WriteString", Dir: "tars/protocol/codec", Func: "Buffer.WriteString", Writer: codecWriter},
+	{Name: "tr_WriteFloat32", Dir: "tars/protocol/codec", Func: "Buffer.WriteFloat32", Writer: codecWriter},
+	{Name: "tr_WriteFloat64", Dir: "tars/protocol/codec", Func: "Buffer.WriteFloat64", Writer: codecWriter},
 	// selector.BuildStaticWeightList up to the scaling range: static-weight check, min / max weight, guard, clamp
 	{Name: "tr_BSWL_range", Dir: "tars/selector", Func: "BuildStaticWeightList", From: "^", To: "if minWeight > 0 {",
 		Outs: []string{"maxRange", "totalWeight", "minWeight", "maxWeight"}},
@@ -93,6 +95,7 @@ var xUnits = []xUnit{
 	rdUnit("tr_SkipTo", "SkipTo", true, ""), rdUnit("tr_ReadInt8", "ReadInt8", true, ""), rdUnit("tr_ReadInt16", "ReadInt16", true, ""),
 	rdUnit("tr_ReadInt64", "ReadInt64", true, ""), rdUnit("tr_ReadUint8", "ReadUint8", true, ""), rdUnit("tr_ReadUint16", "ReadUint16", true, ""),
 	rdUnit("tr_ReadUint32", "ReadUint32", true, ""), rdUnit("tr_ReadBool", "ReadBool", true, ""), rdUnit("tr_ReadString", "ReadString", true, ""),
+	rdUnit("tr_ReadFloat32", "ReadFloat32", true, ""), rdUnit("tr_ReadFloat64", "ReadFloat64", true, ""),
 	rdUnit("tr_ReadSliceUint8", "ReadSliceUint8", false, ""), rdUnit("tr_ReadBytes", "ReadBytes", false, ""),
 	// ServantProxy.genRequestID: the compare-and-swap step, then the add loop (one sequential call is the two in a row)
 	{Name: "tr_genRequestID_cas", Dir: "tars", Func: "ServantProxy.genRequestID", Globals: []string{"maxInt32"}, State: msgIDCounter,
